@@ -17,6 +17,38 @@ use std::hash::Hash;
 use std::sync::Arc;
 use std::time::Duration;
 
+/// "types" normally, "types1cpu" while the process is pinned to a single CPU
+static PREFIX: std::sync::Mutex<&'static str> = std::sync::Mutex::new("types");
+
+fn prefix() -> &'static str {
+    *PREFIX.lock().unwrap()
+}
+
+extern "C" {
+    fn sched_getaffinity(pid: i32, cpusetsize: usize, mask: *mut u64) -> i32;
+    fn sched_setaffinity(pid: i32, cpusetsize: usize, mask: *const u64) -> i32;
+}
+
+/// Restricts the calling thread to the first CPU it is allowed to run on (what
+/// `taskset -c N` or a one-CPU container does); returns the previous mask.
+fn pin_one_cpu() -> Option<[u64; 16]> {
+    let mut old = [0u64; 16];
+    if unsafe { sched_getaffinity(0, 128, old.as_mut_ptr()) } != 0 {
+        return None;
+    }
+    let mut one = [0u64; 16];
+    for (i, w) in old.iter().enumerate() {
+        if *w != 0 {
+            one[i] = 1u64 << w.trailing_zeros();
+            break;
+        }
+    }
+    if unsafe { sched_setaffinity(0, 128, one.as_ptr()) } != 0 {
+        return None;
+    }
+    Some(old)
+}
+
 const NKEYS: u32 = 24;
 const STEPS: u32 = 1500;
 const TTL_TICKS: u64 = 10;
@@ -149,7 +181,7 @@ where
     K: Hash + Eq + Send + Sync + Clone + Debug + 'static,
     V: Clone + Send + Sync + 'static,
 {
-    let name: &'static str = Box::leak(format!("types:S:{tyname}:{}", conf.name()).into_boxed_str());
+    let name: &'static str = Box::leak(format!("{}:S:{tyname}:{}", prefix(), conf.name()).into_boxed_str());
     let mut out = Vec::new();
     let r = std::panic::catch_unwind(std::panic::AssertUnwindSafe(|| {
         let mut b = mini_moka::sync::Cache::<K, V>::builder();
@@ -254,7 +286,15 @@ where
     }));
     match r {
         Ok(v) => out.extend(v),
-        Err(p) => out.push(viol("C08", "types:panic", format!("the scripted history panicked: {}", panic_msg(&p)), name)),
+        Err(p) => {
+            let msg = panic_msg(&p);
+            out.push(viol("C08", "types:panic", format!("the scripted history panicked: {msg}"), name));
+            if prefix() == "types1cpu" {
+                // (build() panics if and only if a duration exceeds 1000 years - also on a
+                // machine, or in a container, with a single CPU)
+                out.push(viol("C17", "types:panic-on-one-cpu", format!("on a thread restricted to one CPU the scripted history panicked: {msg}"), name));
+            }
+        }
     }
     Scenario { name, steps: STEPS as u64, viol: out }
 }
@@ -264,7 +304,7 @@ where
     K: Hash + Eq + Clone + Debug + 'static,
     V: 'static,
 {
-    let name: &'static str = Box::leak(format!("types:U:{tyname}:{}", conf.name()).into_boxed_str());
+    let name: &'static str = Box::leak(format!("{}:U:{tyname}:{}", prefix(), conf.name()).into_boxed_str());
     let mut out = Vec::new();
     let r = std::panic::catch_unwind(std::panic::AssertUnwindSafe(|| {
         let mut b = mini_moka::unsync::Cache::<K, V>::builder();
@@ -356,7 +396,15 @@ where
     }));
     match r {
         Ok(v) => out.extend(v),
-        Err(p) => out.push(viol("C08", "types:panic", format!("the scripted history panicked: {}", panic_msg(&p)), name)),
+        Err(p) => {
+            let msg = panic_msg(&p);
+            out.push(viol("C08", "types:panic", format!("the scripted history panicked: {msg}"), name));
+            if prefix() == "types1cpu" {
+                // (build() panics if and only if a duration exceeds 1000 years - also on a
+                // machine, or in a container, with a single CPU)
+                out.push(viol("C17", "types:panic-on-one-cpu", format!("on a thread restricted to one CPU the scripted history panicked: {msg}"), name));
+            }
+        }
     }
     Scenario { name, steps: STEPS as u64, viol: out }
 }
@@ -482,6 +530,39 @@ fn realtime(kind: char, idle: bool) -> Scenario {
         Err(p) => out.push(viol("C08", "types:panic", format!("the real-time scenario panicked: {}", panic_msg(&p)), name)),
     }
     Scenario { name, steps: 30, viol: out }
+}
+
+/// The configurations that use the library's own defaults (no mock clock, default number of
+/// map shards - derived from the number of CPUs the process may use), run by a thread that
+/// is restricted to ONE CPU: `available_parallelism()` is 1 there.
+pub fn scenarios_1cpu() -> Vec<Scenario> {
+    let mut out = Vec::new();
+    let h = std::thread::spawn(|| {
+        let mut out = Vec::new();
+        match pin_one_cpu() {
+            None => out.push(Scenario { name: "types1cpu:pin", steps: 0, viol: vec![] }),
+            Some(_) => {
+                let seen = std::thread::available_parallelism().map(|n| n.get()).unwrap_or(0);
+                *PREFIX.lock().unwrap() = "types1cpu";
+                for conf in [Conf::RealClock, Conf::RealClockRoomy] {
+                    out.push(sync_scn::<String, u32>("String-u32", conf, k_string, v_u32, vi_u32, ki_string));
+                    out.push(unsync_scn::<String, u32>("String-u32", conf, k_string, v_u32, vi_u32, ki_string));
+                    out.push(sync_scn::<u64, [u32; 64]>("u64-array", conf, k_u64, v_big, vi_big, ki_u64));
+                }
+                *PREFIX.lock().unwrap() = "types";
+                if seen != 1 {
+                    // (not a verdict about the library: the restriction did not take effect)
+                    out.clear();
+                    out.push(Scenario { name: "types1cpu:pin", steps: 0, viol: vec![] });
+                }
+            }
+        }
+        out
+    });
+    if let Ok(v) = h.join() {
+        out.extend(v);
+    }
+    out
 }
 
 pub fn scenarios() -> Vec<Scenario> {
